@@ -76,6 +76,31 @@ CLAIMED.update({
              'the logged comparison sequences are validated against the model.', 'DESIGN.md 4/C09',
              'TLA+ algorithm model (MergeSort.tla) checked by TLC + TLC-enumerated inputs run on the real sorter + TLC validation of outputs (SortLaws.tla) and comparison traces'),
 })
+CNOTE = ('Trusted: TLC generating the documents / token sequences / values from Cdcn.tla and judging the recorded outcomes, the projection of '
+         'parsed values through the public API, strconv as the independent evaluator of literal forms. The bounded universe generated '
+         'by the specification, not all strings.')
+
+def cdcn(text, ref, tech):
+    return dict(engine='cdcn', level=dict(category='exploration', text=text, design_ref=ref), note=CNOTE, technique=tech)
+
+CLAIMED.update({
+ 'C10': cdcn('TLC generates the values (the meaning of every generated document and every atom of the canonical leaf universe in every '
+             'position, also with shared sub-collections); each is formatted, parsed back, projected and formatted again and TLC judges '
+             'value and text equality; every call sequence up to length 3-4 incl. failing calls on one notation is compared with fresh '
+             'notations (purity); nesting to 40 levels and self-containing values run in a child process (totality).', 'DESIGN.md 4/C10',
+             'TLA+ grammar/meaning spec (Cdcn.tla) generating values; round trip on the real formatter+parser; TLC judgement of recorded outcomes'),
+ 'C11': cdcn('TLC generates the sentences of the grammar from Cdcn.tla (every layout of every collection type, nesting, every literal form '
+             'in every single-leaf context, documents longer than the token queue) together with their syntax-directed meaning; each is '
+             'rendered with seeded blanks, parsed twice (also under perturbed scanner/parser scheduling through the queue hooks) and the '
+             'projected result is judged by TLC against the meaning with literals evaluated independently; unrepresentable literals must '
+             'be rejected.', 'DESIGN.md 4/C11',
+             'TLA+ grammar + meaning (Cdcn.tla): TLC-generated sentences parsed by the real parser, TLC judgement against the specified meaning'),
+ 'C12': cdcn('TLC generates every token sequence up to length 4-5 over an abstract alphabet, kind-mismatched documents, prefixes and '
+             'error injections at every token boundary of long documents; each is parsed by a fresh and by a long-lived notation under a '
+             'watchdog; TLC judges the outcome class (value or diagnostic, never a runtime error / hang / history dependence) and '
+             'recomputes token positions to locate the diagnostic; scanner goroutines left behind are counted.', 'DESIGN.md 4/C12',
+             'TLA+ spec (Cdcn.tla) generating inputs and recomputing token positions; outcomes of the real parser judged by TLC'),
+})
 NOT_YET = 'check not built yet (work in progress; see DESIGN.md section 10)'
 
 hooks_commits = [l.split()[0] for l in subprocess.run(['git', '-C', '/repo', 'log', '--format=%h %s'], capture_output=True, text=True).stdout.splitlines() if ' verif-hook:' in l]
@@ -93,6 +118,9 @@ m = {
    {'name': 'laws', 'path': 'spec/CollatorLaws.tla spec/SortLaws.tla spec/MergeSort.tla lib/agentchecks.py harness/agentx',
     'serves_properties': [p for p, c in CLAIMED.items() if c['engine'] == 'laws'],
     'kind_free_text': 'TLA+ law modules evaluated by TLC over observation tables recorded from the real collator / sorter on TLC-generated inputs'},
+   {'name': 'cdcn', 'path': 'spec/Cdcn.tla spec/cdcn_literals.json lib/cdcnchecks.py harness/cdcnx',
+    'serves_properties': [p for p, c in CLAIMED.items() if c['engine'] == 'cdcn'],
+    'kind_free_text': 'TLA+ specification of the CDCN grammar, meaning and token positions; TLC generates inputs and judges recorded outcomes of the real parser/formatter'},
    {'name': 'world', 'path': 'spec/World.tla spec/MCWorld.tla spec/TraceWorld.tla lib/worldeng.py harness/world',
     'serves_properties': [p for p, c in CLAIMED.items() if c['engine'] == 'world'],
     'kind_free_text': 'sequential TLA+ specification of all collection classes; TLC edge export -> replay on real code; TLC trace validation'},
